@@ -694,7 +694,7 @@ func pollScenario(out *vh.Out, w *world, sc *scenario, r *vh.Rng, polls int) {
 			// a single known peer: whatever the store gained from the network in this poll came from it — how did
 			// the peer tracker record that peer? (hits/misses of its sliding window before and after)
 			if _, h1, m1, _, ok := rig.PeerState(e.servers[0].host.ID()); ok {
-				out.Line("pstat sc=%d k=%d netnew=%d hits0=%d misses0=%d hits1=%d misses1=%d window=%d", sc.id, k, netnew, h0, m0, h1, m1, polling.VerifHitMissWindow)
+				out.Line("pstat sc=%d k=%d netnew=%d hits0=%d misses0=%d hits1=%d misses1=%d window=%d kind=%d res=%s", sc.id, k, netnew, h0, m0, h1, m1, polling.VerifHitMissWindow, int(e.servers[0].kind), res)
 			}
 		}
 	}
